@@ -72,10 +72,11 @@ type Ctx struct {
 	False *Term
 	ufs   map[string]string // name -> declaration
 	ufOrd []string
+	lowMemo map[uint64]*Term
 }
 
 func NewCtx() *Ctx {
-	c := &Ctx{table: map[string]*Term{}, ufs: map[string]string{}}
+	c := &Ctx{table: map[string]*Term{}, ufs: map[string]string{}, lowMemo: map[uint64]*Term{}}
 	c.True = c.mk(OpConst, 0, nil, 1, "")
 	c.False = c.mk(OpConst, 0, nil, 0, "")
 	return c
@@ -309,6 +310,9 @@ func (c *Ctx) Eq(a, b *Term) *Term {
 	if a.IsConst() && b.Op == OpZExt {
 		return c.Eq(b, a)
 	}
+	if a.Op == OpZExt && b.Op == OpZExt && a.Args[0].W == b.Args[0].W {
+		return c.Eq(a.Args[0], b.Args[0])
+	}
 	if a.ID > b.ID {
 		a, b = b, a
 	}
@@ -498,6 +502,10 @@ func (c *Ctx) Bin(op Op, a, b *Term) *Term {
 			if b.Val == mask(w) {
 				return a
 			}
+			// x & (2^k-1): only the low k bits of x matter
+			if k := lowMaskBits(b.Val); k > 0 && k < w {
+				return c.ZExt(c.LowBits(a, k), w)
+			}
 		}
 		if a == b {
 			return a
@@ -541,6 +549,62 @@ func (c *Ctx) Bin(op Op, a, b *Term) *Term {
 		}
 	}
 	return c.mk(op, w, []*Term{a, b}, 0, "")
+}
+
+func lowMaskBits(v uint64) int {
+	if v == 0 || v&(v+1) != 0 {
+		return 0
+	}
+	return bits.Len64(v)
+}
+
+// LowBits returns the low k bits of t as a k-bit term, pushing the
+// truncation through operators whose low bits depend only on the operands'
+// low bits (so 64-bit index arithmetic under a mask becomes k-bit arithmetic).
+func (c *Ctx) LowBits(t *Term, k int) *Term {
+	if k >= t.W {
+		return t
+	}
+	key := uint64(t.ID)<<8 | uint64(k)
+	if r, ok := c.lowMemo[key]; ok {
+		return r
+	}
+	var r *Term
+	switch t.Op {
+	case OpConst:
+		r = c.Const(k, t.Val)
+	case OpAdd, OpSub, OpMul, OpBVAnd, OpBVOr, OpBVXor:
+		r = c.Bin(t.Op, c.LowBits(t.Args[0], k), c.LowBits(t.Args[1], k))
+	case OpBVNot:
+		r = c.BVNot(c.LowBits(t.Args[0], k))
+	case OpNeg:
+		r = c.Neg(c.LowBits(t.Args[0], k))
+	case OpIte:
+		r = c.Ite(t.Args[0], c.LowBits(t.Args[1], k), c.LowBits(t.Args[2], k))
+	case OpZExt, OpSExt:
+		in := t.Args[0]
+		if in.W >= k {
+			r = c.LowBits(in, k)
+		} else if t.Op == OpZExt {
+			r = c.ZExt(in, k)
+		} else {
+			r = c.SExt(in, k)
+		}
+	case OpShl:
+		if t.Args[1].IsConst() && t.W <= 64 {
+			sh := t.Args[1].Val
+			if sh >= uint64(k) {
+				r = c.Const(k, 0)
+			} else {
+				r = c.Bin(OpShl, c.LowBits(t.Args[0], k), c.Const(k, sh))
+			}
+		}
+	}
+	if r == nil {
+		r = c.Extract(t, k-1, 0)
+	}
+	c.lowMemo[key] = r
+	return r
 }
 
 // Const64W is Const for w<=64 and a zext'd constant above.
@@ -587,6 +651,41 @@ func (c *Ctx) Cmp(op Op, a, b *Term) *Term {
 	}
 	if a == b {
 		return c.Bool(op == OpULe || op == OpSLe)
+	}
+	// both sides zero-extended from the same narrower width: compare there, unsigned
+	if a.Op == OpZExt && b.Op == OpZExt && a.Args[0].W == b.Args[0].W && a.Args[0].W < a.W {
+		nop := op
+		if op == OpSLt {
+			nop = OpULt
+		} else if op == OpSLe {
+			nop = OpULe
+		}
+		return c.Cmp(nop, a.Args[0], b.Args[0])
+	}
+	// zext(x) vs constant that fits x's width
+	if a.Op == OpZExt && b.IsConst() && a.Args[0].W < a.W && a.W <= 64 {
+		iw := a.Args[0].W
+		if b.Val <= mask(iw) && (op == OpULt || op == OpULe || b.SVal() >= 0) {
+			nop := op
+			if op == OpSLt {
+				nop = OpULt
+			} else if op == OpSLe {
+				nop = OpULe
+			}
+			return c.Cmp(nop, a.Args[0], c.Const(iw, b.Val))
+		}
+	}
+	if b.Op == OpZExt && a.IsConst() && b.Args[0].W < b.W && b.W <= 64 {
+		iw := b.Args[0].W
+		if a.Val <= mask(iw) && (op == OpULt || op == OpULe || a.SVal() >= 0) {
+			nop := op
+			if op == OpSLt {
+				nop = OpULt
+			} else if op == OpSLe {
+				nop = OpULe
+			}
+			return c.Cmp(nop, c.Const(iw, a.Val), b.Args[0])
+		}
 	}
 	switch op {
 	case OpULt:
@@ -714,7 +813,7 @@ func (c *Ctx) Trunc(a *Term, w int) *Term {
 	if a.W == w {
 		return a
 	}
-	return c.Extract(a, w-1, 0)
+	return c.LowBits(a, w)
 }
 
 func (c *Ctx) Concat(hi, lo *Term) *Term {
